@@ -19,6 +19,7 @@ def c03(ctx):
     # HUP, a killed, a hung and an interrupted worker, TERM (drift only: the hook order is not a listed property)
     from props import lifecycle
     lifecycle.design(ctx)
+    lifecycle.inductive(ctx)
     lifecycle.follow(ctx)
 
 
